@@ -151,3 +151,245 @@ def _cg_inv2(c, k):
     di = c.locals["disc_i"]
     return _cg_common(c) + _cg_edges(c, lambda u, v: z3.Or(m.pos[u] < m.pos[di], z3.And(u == di, m.pos[v] < k))) + [
         ("outer-target", z3.And(m.member[di], c.locals["outputs_i"].member == out_names(di)))]
+
+
+# ============================================================================ __get_leaves
+def no_successor(nodes, edge, a, sort=I, tag="ns"):
+    b = z3.Const(f"b!{tag}", sort)
+    return z3.ForAll([b], z3.Implies(nodes.member[b], z3.Not(edge[a][b])))
+
+
+@register
+class GetLeaves(Contract):
+    """The nodes without successor, each once (here: on a condensation graph, integer nodes)."""
+
+    targets = (DG + ".__get_leaves",)
+    prop = ("C08",)
+    params = {"graph": TObj(NXC)}
+    returns = ILIST
+
+    def ensures(self, c):
+        g, r = c.old.graph, c.result
+        n = g._nodes
+        t, t2, a = z3.Ints("t!gl t2!gl a!gl")
+        return [
+            ("are-leaves", FA([t], z3.Implies(z3.And(0 <= t, t < r.n), z3.And(n.member[r.elems[t]], no_successor(n, g.edge, r.elems[t]))), r.elems[t])),
+            ("all-leaves", z3.ForAll([a], z3.Implies(z3.And(n.member[a], no_successor(n, g.edge, a)), z3.Exists([t], z3.And(0 <= t, t < r.n, r.elems[t] == a))))),
+            ("each-once", z3.ForAll([t, t2], z3.Implies(z3.And(0 <= t, t < t2, t2 < r.n), r.elems[t] != r.elems[t2]))),
+        ]
+
+
+# ============================================================================ __get_ordered_scc
+SCCS = TList(TSet(TDisc))
+GROUPS = TList(GROUP)
+DISC_IDX = TDict(TInt, TDisc, ordered=True)
+_SS = TSet(TDisc)
+
+
+def sset_member(t):
+    return _SS.dt.accessor(0, 0)(t)
+
+
+def sset_n(t):
+    return _SS.dt.accessor(0, 1)(t)
+
+
+def graph_nodes(s):
+    return s._DependencyGraph__graph._nodes
+
+
+def groups_are_ordered_components(N, groups, count, comps, tag):
+    """For i < count: the list term groups[i] lists exactly the elements of the set term comps[i], each once, in increasing node position."""
+    d = D(f"d!{tag}")
+    i, p, q = z3.Ints(f"i!{tag} p!{tag} q!{tag}")
+    rng = z3.And(0 <= i, i < count)
+    g, cm = groups[i], sset_member(comps[i])
+    return [
+        ("group-sizes", FA([i], z3.Implies(rng, ln(g) == sset_n(comps[i])), groups[i])),
+        ("group-members", FA([i, p], z3.Implies(z3.And(rng, 0 <= p, p < ln(g)), cm[le(g, p)]), le(g, p))),
+        ("group-complete", FA([i, d], z3.Implies(z3.And(rng, cm[d]), z3.Exists([p], z3.And(0 <= p, p < ln(g), le(g, p) == d))), cm[d])),
+        ("group-in-node-order", z3.ForAll([i, p, q], z3.Implies(z3.And(rng, 0 <= p, p < q, q < ln(g)), N.pos[le(g, p)] < N.pos[le(g, q)]))),
+    ]
+
+
+@register
+class GetOrderedScc(Contract):
+    """Each component is listed completely, once, in the order of the graph nodes (= caller's order)."""
+
+    targets = (DG + ".__get_ordered_scc",)
+    prop = ("C08",)
+    params = {"scc": SCCS}
+    returns = GROUPS
+    loops = {
+        0: LoopSpec(anchor="scc", inv=lambda c, k: _os_inv0(c, k), modifies=("__yield__",)),
+        1: LoopSpec(anchor="components", inv=lambda c, k: _os_inv1(c, k), modifies=("disc_indexes",), local_types={"disc_indexes": DISC_IDX}),
+        2: LoopSpec(anchor="sorted(disc_indexes.keys())", inv=lambda c, k: _os_inv2(c, k), local_types={"ordered_components": GROUP}),
+    }
+
+    def requires(self, c):
+        N, scc = graph_nodes(c.old.self), c.old.scc
+        i = z3.Int("i!osr")
+        d = D("d!osr")
+        return [("components-are-sets-of-nodes", z3.ForAll([i, d], z3.Implies(z3.And(0 <= i, i < scc.n, sset_member(scc.elems[i])[d]), N.member[d])))]
+
+    def ensures(self, c):
+        N, scc, r = graph_nodes(c.old.self), c.old.scc, c.result
+        return [("one-list-per-component", r.n == scc.n)] + groups_are_ordered_components(N, r.elems, scc.n, scc.elems, "os")
+
+
+def _os_inv0(c, k):
+    N, scc, y = graph_nodes(c.old.self), c.old.scc, c.locals["__yield__"]
+    return [("yielded-count", y.n == k)] + groups_are_ordered_components(N, y.elems, k, scc.elems, "os0")
+
+
+def _os_inv1(c, k):
+    N = graph_nodes(c.old.self)
+    comp, di = c.locals["components"], c.locals["disc_indexes"]
+    x = z3.Int("x!os1")
+    d = D("d!os1")
+    return [
+        ("indexes", FA([x], di.member[x] == z3.And(0 <= x, x < N.n, comp.member[N.keys[x]], c.seq.pos[N.keys[x]] < k), di.member[x])),
+        ("values", FA([x], z3.Implies(di.member[x], di.vals[x] == N.keys[x]), di.vals[x])),
+        ("size", di.n == k),
+        ("indexes-of-seen", FA([d], z3.Implies(z3.And(comp.member[d], c.seq.pos[d] < k), z3.And(di.member[N.pos[d]], di.vals[N.pos[d]] == d)), comp.member[d])),
+    ]
+
+
+def _os_inv2(c, k):
+    N = graph_nodes(c.old.self)
+    di, oc = c.locals["disc_indexes"], c.locals["ordered_components"]
+    j = z3.Int("j!os2")
+    return [
+        ("length", oc.n == k),
+        ("elements", FA([j], z3.Implies(z3.And(0 <= j, j < k), oc.elems[j] == N.keys[c.seq.elem(j).term]), oc.elems[j], c.seq.elem(j).term)),
+    ]
+
+
+# ============================================================================ __create_condensed_graph
+def mem_of(cg, a):
+    return cg.members[a]
+
+
+def condensed_wf(N, E, cg, fresh=True):
+    """What the peeling loop needs to know about the condensation `cg` of the graph (N, E)."""
+    u, v = D("u!cw"), D("v!cw")
+    a, b, p, q = z3.Ints("a!cw b!cw p!cw q!cw")
+    n0, comp, midx, M = cg.n0, cg.comp_of, cg.member_idx, cg.members
+    out = [
+        ("node-of-each-discipline", FA([u], z3.Implies(N.member[u], z3.And(0 <= comp[u], comp[u] < n0, 0 <= midx[u], midx[u] < ln(M[comp[u]]), le(M[comp[u]], midx[u]) == u)), comp[u])),
+        ("members-are-disciplines", FA([a, p], z3.Implies(z3.And(0 <= a, a < n0, 0 <= p, p < ln(M[a])), z3.And(N.member[le(M[a], p)], comp[le(M[a], p)] == a, midx[le(M[a], p)] == p)), le(M[a], p))),
+        ("groups-are-the-classes-of-mutual-dependency", z3.ForAll([u, v], z3.Implies(z3.And(N.member[u], N.member[v]), (comp[u] == comp[v]) == z3.And(reach(E, u, v), reach(E, v, u))))),
+        ("members-in-caller-order", z3.ForAll([a, p, q], z3.Implies(z3.And(0 <= a, a < n0, 0 <= p, p < q, q < ln(M[a])), N.pos[le(M[a], p)] < N.pos[le(M[a], q)]))),
+        ("no-empty-group", FA([a], z3.Implies(z3.And(0 <= a, a < n0), ln(M[a]) >= 1), M[a])),
+        ("crossing-edges", z3.ForAll([u, v], z3.Implies(z3.And(N.member[u], N.member[v], E[u][v], comp[u] != comp[v]), cg.edge0[comp[u]][comp[v]]))),
+        ("edges-between-nodes", FA([a, b], z3.Implies(cg.edge0[a][b], z3.And(0 <= a, a < n0, 0 <= b, b < n0, a != b)), cg.edge0[a][b])),
+        ("acyclic", FA([a, b], z3.Implies(cg.edge0[a][b], z3.And(cg.rank[a] > cg.rank[b], cg.rank[b] >= 0)), cg.edge0[a][b])),
+    ]
+    if fresh:
+        cn = cg._nodes
+        out += [
+            ("nodes", z3.And(cn.n == n0, z3.ForAll([a], cn.member[a] == z3.And(0 <= a, a < n0)))),
+            ("nothing-removed-yet", z3.And(cg.rm_count == 0, z3.ForAll([a], cg.rm_time[a] == -1), cg.edge == cg.edge0)),
+        ]
+    return out
+
+
+@register
+class CreateCondensedGraph(Contract):
+    targets = (DG + ".__create_condensed_graph",)
+    prop = ("C08",)
+    returns = TObj(NXC)
+
+    def ensures(self, c):
+        g = c.old.self._DependencyGraph__graph
+        return condensed_wf(g._nodes, g.edge, c.result)
+
+
+# ============================================================================ get_execution_sequence
+def seq_at(R, s, t=None, p=None):
+    x = R.elems[s]
+    if t is not None:
+        x = le(x, t)
+    if p is not None:
+        x = le(x, p)
+    return x
+
+
+def same_group(st, sl, u, v):
+    return z3.And(st[u] == st[v], sl[u] == sl[v])
+
+
+def schedule_is_valid(N, E, R, st, sl, ix):
+    """R (list of stages, each a list of groups, each a tuple of disciplines) is a valid schedule of the graph
+    (N, E); st/sl/ix locate every discipline in R (ghost witnesses)."""
+    u, v = D("u!sv"), D("v!sv")
+    s, t, p = z3.Ints("s!sv t!sv p!sv")
+    inrange = z3.And(0 <= s, s < R.n, 0 <= t, t < ln(seq_at(R, s)), 0 <= p, p < ln(seq_at(R, s, t)))
+    d = seq_at(R, s, t, p)
+    return [
+        ("every-discipline-is-scheduled", FA([u], z3.Implies(N.member[u], z3.And(0 <= st[u], st[u] < R.n, 0 <= sl[u], sl[u] < ln(seq_at(R, st[u])), 0 <= ix[u], ix[u] < ln(seq_at(R, st[u], sl[u])),
+                                                                                 seq_at(R, st[u], sl[u], ix[u]) == u)), st[u])),
+        ("exactly-once-and-nothing-else", FA([s, t, p], z3.Implies(inrange, z3.And(N.member[d], st[d] == s, sl[d] == t, ix[d] == p)), d)),
+        ("groups-are-the-classes-of-mutual-dependency", z3.ForAll([u, v], z3.Implies(z3.And(N.member[u], N.member[v]), same_group(st, sl, u, v) == z3.And(reach(E, u, v), reach(E, v, u))))),
+        ("producers-strictly-before-consumers", z3.ForAll([u, v], z3.Implies(z3.And(N.member[u], N.member[v], E[u][v], z3.Not(same_group(st, sl, u, v))), st[u] < st[v]))),
+        ("groups-in-caller-order", z3.ForAll([u, v], z3.Implies(z3.And(N.member[u], N.member[v], same_group(st, sl, u, v), ix[u] < ix[v]), N.pos[u] < N.pos[v]))),
+        ("no-empty-stage", FA([s], z3.Implies(z3.And(0 <= s, s < R.n), ln(seq_at(R, s)) >= 1), seq_at(R, s))),
+    ]
+
+
+def ghosts(c, which="new"):
+    g = c.new_ghost if which == "new" else c.old_ghost
+    return g("c08_stage", GH), g("c08_slot", GH), g("c08_idx", GH)
+
+
+def dag_has_a_sink(N, E, rank, tag="ds"):
+    """Cited lemma: a non-empty DAG (edges strictly decrease a rank into the naturals) has a node without successor."""
+    a, b = z3.Ints(f"a!{tag} b!{tag}")
+    is_dag = z3.ForAll([a, b], z3.Implies(z3.And(N.member[a], N.member[b], E[a][b]), z3.And(rank[a] > rank[b], rank[b] >= 0)))
+    return z3.Implies(z3.And(is_dag, N.n > 0), z3.Exists([a], z3.And(N.member[a], no_successor(N, E, a, tag=tag + "b"))))
+
+
+@register
+class GetExecutionSequence(Contract):
+    targets = (DG + ".get_execution_sequence",)
+    prop = ("C08",)
+    returns = SEQ
+    modifies = ("ghost:c08_stage", "ghost:c08_slot", "ghost:c08_idx")
+    loops = {0: LoopSpec(anchor="True", inv=lambda c, k: _es_inv(c, k), modifies=("condensed_graph",), local_types={"execution_sequence": SEQ},
+                         decreases=lambda c, k: c.locals["condensed_graph"]._nodes.n,
+                         lemmas=lambda c: [("a non-empty finite DAG has a sink", dag_has_a_sink(c.locals["condensed_graph"]._nodes, c.locals["condensed_graph"].edge, c.locals["condensed_graph"].rank))])}
+
+    def ghost_final(self, c):
+        cg, es = c.locals["condensed_graph"], c.locals["execution_sequence"]
+        d = D("d!gf")
+        return {
+            "c08_stage": z3.Lambda([d], es.n - 1 - cg.rm_time[cg.comp_of[d]]),
+            "c08_slot": z3.Lambda([d], cg.rm_slot[cg.comp_of[d]]),
+            "c08_idx": cg.member_idx,
+        }
+
+    def ensures(self, c):
+        g = c.old.self._DependencyGraph__graph
+        return schedule_is_valid(g._nodes, g.edge, c.result, *ghosts(c))
+
+
+def _es_inv(c, k):
+    cg, cg0, es = c.locals["condensed_graph"], c.pre_locals["condensed_graph"], c.locals["execution_sequence"]
+    N = cg._nodes
+    a, b, s, t, p = z3.Ints("a!es b!es s!es t!es p!es")
+    rt, rs, batch, M, n0 = cg.rm_time, cg.rm_slot, cg.rm_batch, cg.members, cg.n0
+    bt = le(batch[s], t)
+    return [
+        ("static-fields", z3.And(cg.members == cg0.members, cg.comp_of == cg0.comp_of, cg.member_idx == cg0.member_idx, cg.rank == cg0.rank, n0 == cg0.n0, cg.edge0 == cg0.edge0)),
+        ("rounds", z3.And(cg.rm_count == k, es.n == k)),
+        ("alive-xor-removed", FA([a], z3.Implies(z3.And(0 <= a, a < n0), z3.And(N.member[a] == (rt[a] == -1), -1 <= rt[a], rt[a] < k)), rt[a])),
+        ("alive-are-nodes", FA([a], z3.Implies(N.member[a], z3.And(0 <= a, a < n0)), N.member[a])),
+        ("edges-among-alive", FA([a, b], cg.edge[a][b] == z3.And(cg.edge0[a][b], N.member[a], N.member[b]), cg.edge[a][b])),
+        ("successors-removed-earlier", FA([a, b], z3.Implies(z3.And(cg.edge0[a][b], rt[a] >= 0), z3.And(0 <= rt[b], rt[b] < rt[a])), cg.edge0[a][b])),
+        ("stage-sizes", FA([s], z3.Implies(z3.And(0 <= s, s < k), ln(es.elems[s]) == ln(batch[s])), es.elems[s])),
+        ("stage-content", FA([s, t], z3.Implies(z3.And(0 <= s, s < k, 0 <= t, t < ln(batch[s])),
+                                                 z3.And(0 <= bt, bt < n0, rt[bt] == s, rs[bt] == t, ln(le(es.elems[s], t)) == ln(M[bt]),
+                                                        z3.ForAll([p], le(le(es.elems[s], t), p) == le(M[bt], p)))), bt, le(es.elems[s], t))),
+        ("non-empty-stages", FA([s], z3.Implies(z3.And(0 <= s, s < k), ln(batch[s]) >= 1), batch[s])),
+        ("removed-are-in-their-batch", FA([a], z3.Implies(z3.And(0 <= a, a < n0, rt[a] >= 0), z3.And(0 <= rs[a], rs[a] < ln(batch[rt[a]]), le(batch[rt[a]], rs[a]) == a)), rs[a])),
+    ]
